@@ -46,6 +46,31 @@ func init() {
 
 // plainUplink builds a well-formed plain uplink 5GMM message of varied length with the emulator's own constructors.
 func plainUplink(r *rand.Rand) ([]byte, string) {
+	if r.Intn(6) == 0 { // plain 5GSM messages (EPD 2e) handed to the protection entry point directly, and more 5GMM kinds
+		psi := uint8(r.Intn(256))
+		switch r.Intn(10) {
+		case 0:
+			return nasTestpacket.GetPduSessionEstablishmentRequest(psi), "5GSM:PduSessionEstablishmentRequest"
+		case 1:
+			return nasTestpacket.GetPduSessionReleaseRequest(psi), "5GSM:PduSessionReleaseRequest"
+		case 2:
+			return nasTestpacket.GetPduSessionReleaseComplete(psi), "5GSM:PduSessionReleaseComplete"
+		case 3:
+			return nasTestpacket.GetPduSessionModificationRequest(psi), "5GSM:PduSessionModificationRequest"
+		case 4:
+			return nasTestpacket.GetPduSessionModificationComplete(psi), "5GSM:PduSessionModificationComplete"
+		case 5:
+			return nasTestpacket.GetStatus5GSM(psi, uint8(r.Intn(256))), "5GSM:Status5GSM"
+		case 6:
+			return nasTestpacket.GetStatus5GMM(uint8(r.Intn(256))), "Status5GMM"
+		case 7:
+			return nasTestpacket.GetSecurityModeReject(uint8(r.Intn(256))), "SecurityModeReject"
+		case 8:
+			return nasTestpacket.GetConfigurationUpdateComplete(), "ConfigurationUpdateComplete"
+		default:
+			return nasTestpacket.GetAuthenticationFailure(uint8(r.Intn(256)), rbytes(r, 14)), "AuthenticationFailure"
+		}
+	}
 	switch r.Intn(8) {
 	case 0:
 		n := r.Intn(120)
